@@ -152,6 +152,7 @@ class C17Check:
             solving_ctx = hs.SolvingContext(dump_dir=hs.Path(tmpdir), executor=executor)
             futures = {}
             cb_counts = {}
+            delivered_at = {}
 
             def do_shutdown(kind):
                 st["shutdown_started_at"] = sim.now if st["shutdown_started_at"] is None else st["shutdown_started_at"]
@@ -208,6 +209,7 @@ class C17Check:
 
                     def cb(f, j=j):
                         cb_counts[j] += 1
+                        delivered_at.setdefault(j, sim.now)
                         if shut_kind == "callback" and st["shutdown_started_at"] is None:
                             do_shutdown("nowait")
 
@@ -381,6 +383,13 @@ class C17Check:
                     p = procs[0] if procs else None
                     natural = p is not None and p.killed_by is None and p.exit_at != INF
                     timed_out = any(e[2] == "communicate-timeout" and p is not None and e[3]["pid"] == p.pid for e in sim.events)
+                    if jb["mode"] == "direct" and timed_out and j in delivered_at and not p.enum_failed \
+                            and p.exit_at > delivered_at[j] and not any(q.parent is p and q.enum_failed for q in table.values()):
+                        # a job over its time limit is cleaned up *before* its outcome is published: whoever waits on the job (or
+                        # on shutdown(wait=True)) may rely on the solver being gone when the wait returns
+                        violations.append(dict(oracle="C17:proc-alive-at-delivery", disc="timeout",
+                                               detail=f"job {j}: result delivered at {delivered_at[j]:.6f} after the time limit expired, "
+                                                      f"but solver pid {p.pid} lives until {p.exit_at}"))
                     if jb["mode"] == "direct":
                         if cb_counts.get(j) != 1:
                             violations.append(dict(oracle="C17:result-not-once", disc=f"callbacks={cb_counts.get(j)}",
